@@ -55,7 +55,6 @@ def run(ctx):
                "current_position": {"new": "initialised to START", "take": "advanced by the width of the peeked character"}}
     for fld, okfns in allowed.items():
         ws = field_writes(F, LEXER, fld)
-        ctx.floor("writes of Lexer::" + fld, len(ws), 2)
         for f, rv, line, how in ws:
             nm = last_seg(f.path)
             ok = nm in okfns and f.path.startswith(LEXER)
@@ -77,6 +76,13 @@ def run(ctx):
                     detail = "current + width(peeked char)" if ok else "assigned from %s" % sorted(t for t in toks if t[0] in "fc")
             ctx.ob("R10.1", "Lexer.%s:write@%s" % (fld, nm), ok,
                    "cursor field `%s` written in %s (%s %s)" % (fld, nm, how, detail or okfns.get(nm, "NOT an allowed writer")), f.where(line))
+    # each prescribed writer still writes its field
+    for fld, okfns in allowed.items():
+        ws = field_writes(F, LEXER, fld)
+        for nm in okfns:
+            has = any(last_seg(f.path) == nm and f.path.startswith(LEXER) for f, rv, line, how in ws)
+            ctx.ob("R10.1", "Lexer.%s:written-by-%s" % (fld, nm), has,
+                   "`%s` %s in Lexer::%s (%s)" % (fld, "is written" if has else "is NO LONGER written", nm, okfns[nm]), "")
     tk = F.find1(LEXER, name="take")
     ctx.analysed(tk)
     # the advance uses the character that peek returned (not a different one)
